@@ -2,6 +2,7 @@ package main
 
 func controlsC19() []Control {
 	return []Control{
+		{Name: "engine adapter rounds the pay amount up", Expect: "R3", Mutate: replaceIn("(*tableEngineAdapter).Pay", "return tea.engine.PlayerPay(playerID, chips)", "return tea.engine.PlayerPay(playerID, chips+chips%2)", 0)},
 		{Name: "thinking timer re-created when the runner is attached", Expect: "R5", Mutate: replaceIn("(*playerRunner).SetActor", "\tpr.actor = a\n", "\tpr.actor = a\n\tpr.timebank = timebank.NewTimeBank()\n", 0)},
 		{Name: "every view cancels the pending auto-play", Expect: "R5", Mutate: replaceIn("(*playerRunner).UpdateTableState", "\tpr.tableInfo = table\n", "\tpr.tableInfo = table\n\tpr.timebank.Cancel()\n", 0)},
 		{Name: "automation calls instead of checking", Expect: "R1", Mutate: replaceIn("(*playerRunner).automate", "return pr.actions.Check()", "return pr.actions.Call()", 0)},
